@@ -7,6 +7,7 @@ package scn
 
 import (
 	"fmt"
+	"hash/fnv"
 	"math"
 	"sort"
 	"strconv"
@@ -107,11 +108,11 @@ type Scenario struct {
 	Cfg map[string]any `json:"cfg,omitempty"`
 }
 
-func (s *Scenario) Ms(t int64) int64                { return t * s.TickMs }
-func (s *Scenario) Time(t int64) time.Time          { return time.UnixMilli(t * s.TickMs) }
-func (s *Scenario) Dur(t int64) time.Duration       { return time.Duration(t*s.TickMs) * time.Millisecond }
-func (s *Scenario) IsInstant() bool                 { return s.Step == 0 }
-func (s *Scenario) CfgInt(k string, def int) int    { return cfgInt(s.Cfg, k, def) }
+func (s *Scenario) Ms(t int64) int64                 { return t * s.TickMs }
+func (s *Scenario) Time(t int64) time.Time           { return time.UnixMilli(t * s.TickMs) }
+func (s *Scenario) Dur(t int64) time.Duration        { return time.Duration(t*s.TickMs) * time.Millisecond }
+func (s *Scenario) IsInstant() bool                  { return s.Step == 0 }
+func (s *Scenario) CfgInt(k string, def int) int     { return cfgInt(s.Cfg, k, def) }
 func (s *Scenario) CfgStr(k string, d string) string { return cfgStr(s.Cfg, k, d) }
 
 func cfgInt(m map[string]any, k string, def int) int {
@@ -202,6 +203,29 @@ func isIdent(s string) bool {
 	return true
 }
 
+// operandText renders operand c of the binary node i. Operands that need them (nested binary
+// expressions, unary minus, negative literals) always get parentheses; the others get them in
+// one scenario out of three (a pure function of the scenario's id and the node), so that both
+// `a + b` - operands the optimizers, the hint propagation and the planner see directly - and
+// `(a) + (b)` are exercised.
+func (s *Scenario) operandText(i, c int) string {
+	t := s.Text(c)
+	switch n := s.Plan[c-1]; {
+	case n.Op == "bin" || n.Op == "neg":
+		return "(" + t + ")"
+	case n.Op == "num" && (strings.HasPrefix(t, "-") || strings.HasPrefix(t, "+")):
+		return "(" + t + ")"
+	case n.Op == "paren":
+		return t
+	}
+	h := fnv.New32a()
+	h.Write([]byte(s.ID))
+	if (h.Sum32()+uint32(i)*7+uint32(c))%3 == 0 {
+		return "(" + t + ")"
+	}
+	return t
+}
+
 // Text renders node i (1-based) of the plan as PromQL.
 func (s *Scenario) Text(i int) string {
 	n := s.Plan[i-1]
@@ -257,7 +281,7 @@ func (s *Scenario) Text(i int) string {
 		case "1:N":
 			mod += " group_right (" + strings.Join(n.Inc, ", ") + ")"
 		}
-		return "(" + s.Text(n.Args[0]) + ") " + n.Fn + mod + " (" + s.Text(n.Args[1]) + ")"
+		return s.operandText(i, n.Args[0]) + " " + n.Fn + mod + " " + s.operandText(i, n.Args[1])
 	case "sub":
 		return "(" + s.Text(n.Args[0]) + ")[" + durText(s.Ms(n.Rng)) + ":" + durText(s.Ms(n.V)) + "]"
 	}
